@@ -74,6 +74,37 @@ Fixpoint pipe_unpack (p : list filter) (d : bytes) : option bytes :=
 Definition reply_pipe (reg : registry) (req : list filter) (added : list byte) : list filter :=
   fst (pipe_append reg req added).
 
+(* ---- a filter whose unpacking is bounded by xfer.SizeLimit (0 = no bound): the gzip filter after
+   the C06 repair reads at most limit+1 inflated bytes and refuses when there are more. ---- *)
+Definition over_limit (lim : N) (x : bytes) : bool := ((0 <? lim) && (lim <? blen x))%N.
+
+Definition limit_filter (lim : N) (f : filter) : filter :=
+  mkFilter (f_id f) (f_pack f)
+    (fun d => match f_unpack f d with
+              | Some x => if over_limit lim x then None else Some x
+              | None => None
+              end).
+
+(* ---- one call on a connection, as its two ends observe it: the pipe the server learns from
+   the request frame (ids as written on the wire -> Append into the message's empty pipe) and the
+   pipe the client learns, the same way, from the reply frame, which the server packed through
+   [reply_pipe]. None: a frame naming an unregistered id (or too many) is refused. A connection
+   carrying a sequence of calls is the map of this function: nothing of one frame's pipe is state
+   of the connection. ---- *)
+Definition exchange (reg : registry) (ids added : list byte) : option (list byte * list byte) :=
+  match pipe_append reg [] ids with
+  | (p, None) =>
+      match pipe_append reg [] (pipe_ids (reply_pipe reg p added)) with
+      | (q, None) => Some (pipe_ids p, pipe_ids q)
+      | _ => None
+      end
+  | _ => None
+  end.
+
+Definition conn_exchange (reg : registry) (calls : list (list byte * list byte))
+  : list (option (list byte * list byte)) :=
+  map (fun c => exchange reg (fst c) (snd c)) calls.
+
 (* ---- integrity filter, parametric in the digest function ---- *)
 Section Md5Filter.
   Variable H : bytes -> bytes.
